@@ -113,9 +113,38 @@ Definition wf_C04_family (fm : fam) (ind : string) (f : forest) : bool :=
 
 (* ---------- guards: the classes of the domain on which the unchanged code is known not to round-trip ---------- *)
 
-(* Cisco: a row with a non-default block exit (address-family) makes split shift all later lines *)
+(* Cisco: a row with a non-default block exit (address-family) makes split shift all later lines, until a row equal
+   to that exit word.  CiscoFormatter.block_exit: the exit word of a row, None = the default one *)
+Definition cisco_exit_of (bexit : string) (tbl : list (list string * string)) (s : string) : option string :=
+  match find (fun e => existsb (fun p => startswith p s) (fst e)) tbl with
+  | Some (_, w) => if String.eqb w bexit then None else Some w
+  | None => None
+  end.
+
 Definition cisco_special_row (bexit : string) (tbl : list (list string * string)) (s : string) : bool :=
-  existsb (fun e => negb (String.eqb (snd e) bexit) && existsb (fun p => startswith p s) (fst e)) tbl.
+  match cisco_exit_of bexit tbl s with Some _ => true | None => false end.
+
+(* the shape device configs have: the block of every such row ends with the leaf row that is its exit word, and exit
+   words occur nowhere else.  closer = the exit word the last row of this level has to be *)
+Fixpoint cisco_closed_t (bexit w : string) (ps : list string) (closer : option string) (t : tree) : bool :=
+  match t with
+  | T k => (fix go (l : forest) : bool :=
+              match l with
+              | [] => match closer with None => true | Some _ => false end
+              | (r, c) :: l' =>
+                match closer, l' with
+                | Some x, [] => String.eqb r x && is_leaf c
+                | _, _ => negb (String.eqb r bexit) && negb (String.eqb r w) &&
+                          cisco_closed_t bexit w ps (cisco_exit_of bexit [(ps, w)] r) c && go l'
+                end
+              end) k
+  end.
+
+Definition cisco_closed (bexit : string) (tbl : list (list string * string)) (f : forest) : bool :=
+  match tbl with
+  | [(ps, w)] => negb (String.eqb w bexit) && cisco_closed_t bexit w ps None (T f)
+  | _ => false
+  end.
 
 (* RouterOS with the section path taken from context.parent: a section inside a section *)
 Fixpoint ros_flat (f : forest) : bool :=
@@ -126,7 +155,7 @@ Fixpoint ros_flat (f : forest) : bool :=
 
 Definition guard_C04_family (fm : fam) (f : forest) : bool :=
   match fm with
-  | FPlain (SkCisco bexit tbl) => all_rows (fun s => negb (cisco_special_row bexit tbl s)) f
+  | FPlain (SkCisco bexit tbl) => all_rows (fun s => negb (cisco_special_row bexit tbl s)) f || cisco_closed bexit tbl f
   | FRos _ => match ros_section_ctx with RosCtxSelf => true | RosCtxParent => ros_flat f end
   | _ => true
   end.
